@@ -6,6 +6,7 @@
 
     bool resolvePath(char* directory, char* path, U32 pathLength, char result[PATH_MAX]) {
         MUST (pathLength > 0)
+        MUST (memchr(path, '\0', pathLength) == NULL)       // present iff Gen.WasiPath.rejectsNul
         if (path[0] == '/') {
             MUST (pathLength < PATH_MAX)
             memcpy(result, path, pathLength);
@@ -67,6 +68,13 @@ def cstrlen : Bytes → Out Nat
     let n ← cstrlen rest
     .val (n + 1)
 
+/-- `memchr(p, '\0', n) == NULL` for `p` pointing at the start of `obj`: the bytes are examined in
+    order and the scan stops at the first NUL (C11 7.24.5.1) -/
+def noNulIn : Bytes → Nat → Out Bool
+  | _, 0 => .val true
+  | [], _ + 1 => .ub .outOfBounds
+  | b :: rest, n + 1 => if b = 0 then .val false else noNulIn rest n
+
 /-- the C string a `char*` to the start of `buf` denotes for a callee that stops at the first NUL -/
 def cstr (buf : Bytes) : Bytes := buf.takeWhile (fun b => !(b == 0))
 
@@ -78,6 +86,8 @@ def cstr (buf : Bytes) : Bytes := buf.takeWhile (fun b => !(b == 0))
 def resolvePath (pm : Nat) (directory avail : Bytes) (pathLength : Nat) (result : Bytes) :
     Out (Option Bytes) :=
   if ¬ Gen.WasiPath.guardNonEmpty pathLength 0 pm then .val none else do
+  let nulFree ← if Gen.WasiPath.rejectsNul then noNulIn avail pathLength else .val true
+  if ¬ nulFree then .val none else do
   let c0 ← readAt avail 0
   if c0 = Gen.WasiPath.absChar then
     if ¬ Gen.WasiPath.guardAbs pathLength 0 pm then .val none else do
@@ -102,10 +112,11 @@ def resolvePath (pm : Nat) (directory avail : Bytes) (pathLength : Nat) (result 
 /-- the separator `resolvePath` inserts after `dir` -/
 def sepOf (dir : Bytes) : Bytes := if dir.getLast? = some 47 then [] else [47]
 
-/-- what the property demands of `resolvePath` (as a C string) for a NUL-free directory string
-    `dir` and guest path `path` -/
+/-- what the property demands of `resolvePath` for a NUL-free directory string `dir` and guest
+    path `path` (any bytes): the resolved host path, or `none` = rejected -/
 def resolveSpec (pm : Nat) (dir path : Bytes) : Option Bytes :=
   if path.length = 0 then none
+  else if (0 : UInt8) ∈ path then none          -- a host path cannot contain NUL
   else if path.head? = some 47 then (if path.length < pm then some path else none)
   else if dir.length + path.length + 1 < pm then some (dir ++ sepOf dir ++ path) else none
 
